@@ -29,6 +29,11 @@ inductive Token where
   | sep (c : Char)
   deriving DecidableEq, Repr, Inhabited
 
+/-- the characters of a token as they stand in the source text -/
+def Token.chars : Token → List Char
+  | .text s => s.toList
+  | .sep c => [c]
+
 /-! ### error classes: `parse::ErrorKind` (one class per variant), `resolve::Error`, and the
     pseudo class `fuel` (the model's recursion budget ran out; the real code has no such outcome —
     for the resolver it stands for unbounded recursion = stack overflow = process abort) -/
